@@ -138,7 +138,10 @@ def run_case(case) -> Result:
                 slack = d + (i + 1) * 0.5 * d + 1e-9 * max(abs(min(w)), abs(max(w)))
                 rng("average-within-inputs", i, v, min(w), max(w), slack)
         elif cls == "OBV":
-            if i > 0 and out[i - 1] is not None and abs(v - out[i - 1]) not in (0, c.volume):
+            step = abs(v - out[i - 1]) if i > 0 and out[i - 1] is not None else 0
+            # a lot size finer than round_value: the stored total moves by the volume up to one rounding
+            fine = round(c.volume, r) != c.volume and abs(step - c.volume) <= 0.5 * 10.0**-r * 1.001 + 1e-9 * abs(v)
+            if step not in (0, c.volume) and not fine:
                 bad("relation-broken", "|dOBV| in {0,volume}", i, f"{out[i - 1]} -> {v}, volume {c.volume}")
         elif cls == "Counter":
             if isinstance(v, bool) or not isinstance(v, int) or v < 0:
